@@ -55,7 +55,8 @@ Pending    == ToSet(Ev[Len(Ev)].pending)
 KindOf(k)  == scn.calls[k].kind
 Answered ==
   /\ Ev[Len(Ev)].e = "Quiescent" /\ Pending = {}
-  /\ \A k \in Written : /\ Count("Reply", k) = 1 /\ Ev[Idx("Reply", k)].ok
+  /\ \A k \in Written : /\ IF NoReply(KindOf(k)) THEN Count("Reply", k) = 0
+                                                     ELSE Count("Reply", k) = 1 /\ Ev[Idx("Reply", k)].ok
                         /\ KindOf(k) # "intro" => Count("Start", k) = 1 /\ Count("End", k) = 1
 SeqWritten == IF scn.spawn THEN {} ELSE {k \in Written : KindOf(k) \in UserKinds}
 \* (a call that never started -- lost or stuck -- is `answered`'s business, not an ordering failure)
